@@ -1133,7 +1133,8 @@ fn run(c: &Case, faults: &[FaultSpec], dev_full: Option<&str>) -> Result<RunObs,
         if matches!(op, HOp::W(_)) {
             // which records may legitimately be missing: their own write failed, or the logger
             // was not initialised yet and a fault hit the initialisation
-            if during.iter().any(|(s, _)| *s == "write") || (!initialised && !during.is_empty()) {
+            // (a failing step of the start-up *cleanup* is not among them: the file is open)
+            if during.iter().any(|(s, _)| *s == "write") || (!initialised && during.iter().any(|(s, _)| matches!(*s, "open" | "rename" | "reopen"))) {
                 exempt.insert(line_idx);
             }
             if during.is_empty() {
@@ -1218,7 +1219,10 @@ fn judge_obs(c: &Case, o: &RunObs, reference: Option<&Reference>) -> Result<(), 
         // (a fault during initialisation makes the logger initialise again with the next record,
         // which legitimately rotates once more: those runs have an exempt record)
         if only_cleanup && o.exempt.is_empty() {
-            if o.names_seen != r.1 {
+            // (a removal that fails during the start-up cleanup leaves an old file in sight that
+            // the fault-free run never shows: compare where the count grows, not the count)
+            let growth = |v: &Vec<usize>| -> Vec<usize> { v.iter().map(|x| x - v.first().copied().unwrap_or(0)).collect() };
+            if growth(&o.names_seen) != growth(&r.1) {
                 return Err(Fail {
                     clause: "partition-disturbed",
                     detail: format!("faults {:?} hit only cleanup steps, but files are opened at other operations than in the fault-free run: files seen after each operation {:?}, fault-free {:?}", o.injected, o.names_seen, r.1),
